@@ -226,3 +226,44 @@ Proof.
   unfold carried_in. rewrite (forward_asset_accounting nz na agrid Hg Hna Hd back Dbeg k b d d' Hb Hk Hk').
   apply aggregate_add. exact Hbud.
 Qed.
+
+(** ---- no shock, no movement (C07): at a fixed point of the backward step with an invariant distribution every date repeats the steady state ---- *)
+Lemma backward_constant (I : Type) (bstep : I -> hback -> hback) (expect : hback -> hback) T (inputs : nat -> I) ss :
+  (forall t, bstep (inputs t) (expect ss) = ss) ->
+  forall b, In b (backward_nonlinear I hback bstep expect T inputs ss) -> b = ss.
+Proof.
+  intros Hfix. rewrite backward_loop_is_recursion_lemma. generalize 0%nat.
+  assert (Hhd : forall n t0, hd ss (spec_list I hback bstep expect inputs t0 n ss) = ss /\ forall b, In b (spec_list I hback bstep expect inputs t0 n ss) -> b = ss).
+  { induction n as [|n IH]; intros t0; cbn [spec_list]; [split; [reflexivity | intros b []]|].
+    destruct (IH (S t0)) as [Hh Hall]. rewrite Hh. rewrite Hfix. cbn [hd]. split; [reflexivity|].
+    intros b [<-|Hb]; [reflexivity | apply Hall; exact Hb]. }
+  intros t0 b Hb. exact (proj2 (Hhd T t0) b Hb).
+Qed.
+
+Lemma forward_constant (exog endog : hback -> arr -> arr) ss Dbeg : endog ss (exog ss Dbeg) = Dbeg ->
+  forall back, (forall b, In b back -> b = ss) ->
+  forall d, In d (forward_nonlinear hback arr exog endog back Dbeg) -> d = (Dbeg, exog ss Dbeg).
+Proof.
+  intros Hinv. induction back as [|b rest IH]; intros Hall d Hd; [destruct Hd|].
+  cbn [forward_nonlinear] in Hd. rewrite (Hall b (or_introl eq_refl)) in Hd. destruct Hd as [<-|Hd]; [reflexivity|].
+  rewrite Hinv in Hd. apply IH; [intros; apply Hall; right; assumption | exact Hd].
+Qed.
+
+Theorem het_zero_shock_lemma nz na agrid (I : Type) (step : I -> arr -> hback) T (inputs : nat -> I) ss Dbeg :
+  (forall t, step (inputs t) (mk_expect nz na (b_Pi ss) (b_V ss)) = ss) ->
+  lottery_forward nz na agrid (b_a ss) (mk_forward nz na (b_Pi ss) Dbeg) = Dbeg ->
+  let '(back, fwd, agg) := het_paths nz na agrid I step T inputs ss Dbeg in
+  (forall b, In b back -> b = ss) /\ (forall d, In d fwd -> d = (Dbeg, mk_forward nz na (b_Pi ss) Dbeg)) /\
+  (forall ac, In ac agg -> ac = (aggregate nz na (mk_forward nz na (b_Pi ss) Dbeg) (b_a ss), aggregate nz na (mk_forward nz na (b_Pi ss) Dbeg) (b_c ss))).
+Proof.
+  intros Hfix Hinv. unfold het_paths.
+  assert (Hb : forall b, In b (backward_nonlinear I hback (bstepB I step) (expectB nz na) T inputs ss) -> b = ss).
+  { apply backward_constant. intros t. unfold bstepB, expectB. cbn [b_V]. apply Hfix. }
+  assert (Hf : forall d, In d (forward_nonlinear hback arr (exogB nz na) (endogB nz na agrid) (backward_nonlinear I hback (bstepB I step) (expectB nz na) T inputs ss) Dbeg) ->
+                    d = (Dbeg, mk_forward nz na (b_Pi ss) Dbeg)).
+  { apply (forward_constant (exogB nz na) (endogB nz na agrid) ss Dbeg); [exact Hinv | exact Hb]. }
+  split; [exact Hb|]. split; [exact Hf|].
+  intros ac Hac. apply in_map_iff in Hac. destruct Hac as [[b d] [<- Hbd]].
+  pose proof (in_combine_l _ _ _ _ Hbd) as H1. pose proof (in_combine_r _ _ _ _ Hbd) as H2.
+  rewrite (Hb b H1), (Hf d H2). reflexivity.
+Qed.
